@@ -85,6 +85,28 @@ def hull(c):
     return (max(lo) if lo else None, min(hi) if hi else None)
 
 
+def sat(c, x):
+    """does the integer x satisfy the (root of the) constraint expression c?"""
+    op = c["op"]
+    if op == "none":
+        return True
+    if op == "range":
+        return (c["lb"]["k"] != "V" or big_to_int(c["lb"]["v"]) <= x) and (c["ub"]["k"] != "V" or x <= big_to_int(c["ub"]["v"]))
+    if op == "ext":
+        return sat(c["a"], x) or sat(c["b"], x) if c["b"]["op"] != "none" else sat(c["a"], x)
+    if op == "union":
+        return sat(c["a"], x) or sat(c["b"], x)
+    if op in ("inter", "serial"):
+        return sat(c["a"], x) and sat(c["b"], x)
+    if op == "except":
+        return sat(c["a"], x) and not sat(c["b"], x)
+    return True
+
+
+def has_op(c, name):
+    return c["op"] == name or any(has_op(c[k], name) for k in ("a", "b") if isinstance(c.get(k), dict) and "op" in c[k])
+
+
 def op_value(scn, op):
     """the value an operation is about: BuildVal sessions check op.val, others the session value"""
     for o in scn["plan"]:
@@ -120,6 +142,21 @@ def _int_semi_constrained(t, v):
         return False
     e = eff_simple(t["c"])
     return e is not None and e[0] not in (None, "?") and e[1] is None and not e[2]
+
+
+def _int_constrained_open_ended(t, v):
+    """a value constraint whose hull is open on at least one side (lb..MAX, MIN..-5 | 5..MAX)"""
+    if t["k"] != "INTEGER" or t["c"]["op"] == "none" or has_op(t["c"], "ext"):
+        return False
+    h = hull(t["c"])
+    return h is None or None in h
+
+
+def _constraint_has_except(M, t):
+    for key in ("c", "size"):
+        if isinstance(t.get(key), dict) and "op" in t[key] and has_op(t[key], "except"):
+            return True
+    return False
 
 
 def _int_unsigned_ge_2p63(t, v):
@@ -315,9 +352,8 @@ def _toplevel_listof_size_violated(M, scn, op, ev):
     t = M.resolve({"k": "REF", "n": scn["ty"]})
     if t["k"] not in ("SEQOF", "SETOF"):
         return False
-    e = eff_simple(t["size"])
     v = op_value(scn, op)
-    return e is not None and "?" not in e[:2] and not ((e[0] or 0) <= len(v) and (e[1] is None or len(v) <= e[1]))
+    return t["size"]["op"] != "none" and not sat(t["size"], len(v))
 
 
 def _real_subnormal_any(M, scn, op, ev):
@@ -351,6 +387,8 @@ PREDS = {
     "int_wide": any_leaf(_int_wide),
     "bits_named_bit_treatment": any_leaf(_bits_named_bit_treatment),
     "int_semi_constrained": any_leaf(_int_semi_constrained),
+    "int_constrained_open_ended": any_leaf(_int_constrained_open_ended),
+    "constraint_has_except": any_type(_constraint_has_except),
     "int_unsigned_ge_2p63": any_leaf(_int_unsigned_ge_2p63),
     "int_range_needs_64_bits": any_leaf(_int_range_needs_64_bits),
     "real_mantissa_leading_zero": any_leaf(_real_mantissa_leading_zero),
